@@ -39,6 +39,8 @@ func init() {
 
 func runC18(p *Prog, r *Report) {
 	c18Reader(p, r)
+	c18RefillThreshold(p, r)
+	c18FreshDestination(p, r)
 	c18Position(p, r)
 	c18OneTokenizer(p, r)
 	c18Constants(p, r)
@@ -147,6 +149,27 @@ func c18Reader(p *Prog, r *Report) {
 			}
 		}
 		if !nonNil || !nonEOF {
+			continue
+		}
+		// the recording must not depend on anything else (e.g. on how many bytes arrived together with the error)
+		extra := false
+		for _, gd := range guardsAt(b) {
+			fg := flattenGuard(gd)
+			if bo, ok := fg.Cond.(*ssa.BinOp); ok && (bo.X == ssa.Value(errv) || bo.Y == ssa.Value(errv)) {
+				continue
+			}
+			// guards that hold on entry to the read itself are not extra conditions
+			inherited := false
+			for _, g0 := range guardsAt(read.Block()) {
+				if g0.If == gd.If {
+					inherited = true
+				}
+			}
+			if !inherited {
+				extra = true
+			}
+		}
+		if extra {
 			continue
 		}
 		for _, in := range b.Instrs {
@@ -422,4 +445,127 @@ func c18Constants(p *Prog, r *Report) {
 	r.Check(bufN == readHigh+1, rule, "parser.scanner:sentinel-slot", p.pos(fn.Pos()), "the buffer has one slot beyond the read bound for the sentinel",
 		"the buffer array has "+itoa(int(bufN))+" bytes and reads fill up to "+itoa(int(readHigh))+": exactly one extra slot is needed for the sentinel written after the data")
 	_ = constant.MakeBool
+}
+
+// R18.7: the refill is attempted whenever fewer than utf8.UTFMax bytes are available (and they are not a full rune).
+// The test is normalised to "available < T": T must be at least utf8.UTFMax, or the first three bytes of a four-byte
+// character left at the end of the buffer are decoded as they are.
+func c18RefillThreshold(p *Prog, r *Report) {
+	const rule = "R18.7-refill-threshold"
+	fn, read := scannerRefill(p)
+	if fn == nil {
+		r.Anchor(rule, "scanner refill")
+		return
+	}
+	// fields: the copy's tail slice bounds are (read position, end)
+	var posF, endF int = -1, -1
+	forEachInstr(fn, func(in ssa.Instruction) {
+		if call, ok := in.(*ssa.Call); ok && isBuiltin(call.Common(), "copy") {
+			if sl, ok := call.Call.Args[1].(*ssa.Slice); ok {
+				if f, _, ok := fieldOfLoad(sl.Low); ok {
+					posF = f
+				}
+				if f, _, ok := fieldOfLoad(sl.High); ok {
+					endF = f
+				}
+			}
+		}
+	})
+	if posF < 0 || endF < 0 {
+		r.Anchor(rule, "read position / end fields (bounds of the moved tail)")
+		return
+	}
+	isF := func(v ssa.Value, f int) bool { g, _, ok := fieldOfLoad(v); return ok && g == f }
+	n := 0
+	forEachInstr(fn, func(in ssa.Instruction) {
+		bo, ok := in.(*ssa.BinOp)
+		if !ok {
+			return
+		}
+		// the comparison must control the refill loop: its block dominates the read
+		if !bo.Block().Dominates(read.Block()) {
+			return
+		}
+		T := int64(-1)
+		switch bo.Op {
+		case token.GTR, token.GEQ: // pos + K > end  |  pos + K >= end
+			if a, ok := bo.X.(*ssa.BinOp); ok && a.Op == token.ADD && isF(bo.Y, endF) {
+				var k int64
+				var okK bool
+				if isF(a.X, posF) {
+					k, okK = constInt(a.Y)
+				} else if isF(a.Y, posF) {
+					k, okK = constInt(a.X)
+				}
+				if okK {
+					T = k
+					if bo.Op == token.GEQ {
+						T = k + 1
+					}
+				}
+			}
+		case token.LSS, token.LEQ: // end - pos < K  |  end - pos <= K
+			if a, ok := bo.X.(*ssa.BinOp); ok && a.Op == token.SUB && isF(a.X, endF) && isF(a.Y, posF) {
+				if k, okK := constInt(bo.Y); okK {
+					T = k
+					if bo.Op == token.LEQ {
+						T = k + 1
+					}
+				}
+			}
+		}
+		if T < 0 {
+			return
+		}
+		n++
+		r.Check(T >= 4, rule, fnQual(fn)+":refill-when-fewer-than", p.pos(bo.Pos()), "refill is attempted when fewer than "+itoa(int(T))+" bytes are available (utf8.UTFMax = 4)",
+			"the scanner refills only when fewer than "+itoa(int(T))+" bytes are available; a four-byte character whose first "+itoa(int(T))+" bytes end the buffer is then decoded from the incomplete bytes: the stream fails with an encoding error where the whole-slice parser succeeds")
+	})
+	if n == 0 {
+		r.Undec(rule, fnQual(fn)+":refill-condition", p.pos(fn.Pos()), "the refill condition is not of the form `pos + K > end` / `end - pos < K` any more")
+	}
+}
+
+// R18.8: Decoder.Decode gives the caller a freshly built policy. It must not reach through pointers already stored in the
+// destination (storage a previous Decode handed out): values copied from the destination earlier would change under
+// the caller's feet.
+func c18FreshDestination(p *Prog, r *Report) {
+	const rule = "R18.8-fresh-destination"
+	n := 0
+	for _, name := range []string{"Decoder.Decode", "Policy.UnmarshalCedar", "Policy.UnmarshalJSON"} {
+		fn := p.fn(pRoot, name)
+		if fn == nil {
+			continue
+		}
+		n++
+		// destination: the pointer parameter (Decode) or the receiver (Unmarshal*)
+		var dest *ssa.Parameter
+		for _, pr := range fn.Params {
+			if nt := namedOf(pr.Type()); nt != nil && nt.Obj().Name() == "Policy" {
+				dest = pr
+			}
+		}
+		if dest == nil {
+			continue
+		}
+		reuses := ""
+		forEachInstr(fn, func(in ssa.Instruction) {
+			ld, ok := in.(*ssa.UnOp)
+			if !ok || ld.Op != token.MUL {
+				return
+			}
+			fa, ok := ld.X.(*ssa.FieldAddr)
+			if !ok || fa.X != ssa.Value(dest) {
+				return
+			}
+			if _, isPtr := ld.Type().Underlying().(*types.Pointer); isPtr {
+				reuses = "loads the pointer stored in field " + itoa(fa.Field) + " of the destination"
+			}
+		})
+		r.Check(reuses == "", rule, "cedar."+name, p.pos(fn.Pos()), "the destination is overwritten as a whole; nothing it pointed to is reused",
+			"cedar."+name+" "+reuses+" and works on what it points to: a policy decoded earlier into the same variable (and copied by the caller) shares that storage and silently turns into the later one — positions, text and decisions included")
+	}
+	if n == 0 {
+		r.Anchor(rule, "cedar.Decoder.Decode / Policy.UnmarshalCedar")
+	}
 }
